@@ -5,6 +5,8 @@ use crate::explore::{explore, record, Caps};
 use crate::hist::{HistCfg, HistSystem};
 
 pub mod c01;
+pub mod c08;
+pub mod c09;
 pub mod c13;
 pub mod hist_props;
 pub mod kernel_props;
@@ -26,6 +28,8 @@ pub fn run(id: &str, tier: Tier) -> i32 {
         "C18" => txn_props::c18(tier),
         "C11" => kernel_props::c11(tier),
         "C12" => kernel_props::c12(tier),
+        "C08" => c08::run(tier),
+        "C09" => c09::run(tier),
         "C13" => c13::run(tier),
         "C16" => format_props::c16(tier),
         "C17" => format_props::c17(tier),
